@@ -862,8 +862,19 @@ struct Hist
       if (now - stableSince > 30000000ull || now > dl) break;
       vf::sleepMs(5);
     }
+    // /proc/net/udp is a walk over a live hash table: with dozens of processes opening and closing UDP
+    // sockets an entry can be skipped by one read, so a missing listener line is retried
     std::map<std::string, uint64_t> d;
-    if (!readUdpDrops(d, v6)) meta.dropsReadable = false;
+    for (int attempt = 0; attempt < 6; attempt++)
+    {
+      d.clear();
+      bool ok = readUdpDrops(d, v6), allThere = true;
+      for (auto &l : L) if (!d.count(l.addr)) allThere = false;
+      if (!ok) { meta.dropsReadable = false; break; }
+      if (allThere) break;
+      feat["kernel_drop_counter_read_retried"]++;
+      vf::sleepMs(2 + 3 * attempt);
+    }
     for (auto &l : L) { auto it = d.find(l.addr); if (it != d.end()) { meta.dropsAtPort[l.addr] = std::max(meta.dropsAtPort[l.addr], it->second); feat["kernel_drop_counters_read"]++; } else meta.dropsReadable = false; }
     if (!meta.dropsReadable) feat["kernel_drop_counters_unreadable"]++;
     for (auto &kv : S) if (kv.second.kind == 'C' && kv.second.open) { auto it = d.find(kv.second.local); if (it != d.end()) meta.dropsAtPort[kv.second.local] = std::max(meta.dropsAtPort[kv.second.local], it->second); }
